@@ -87,14 +87,20 @@ struct Obs {
         if (!multi.load(RLX)) multi.store(true, RLX);
         return t;
     }
-    void chunk(long long b, long long e, int kind, int thr) { int k = nlog.fetch_add(1, RLX); if (k < CAP) log[k] = Ch{ b, e, kind, thr }; }
+    void chunk(long long b, long long e, int kind, int thr) { int k = nlog.fetch_add(1, RLX); if (k < CAP) log[k] = Ch{ b, e, kind, thr }; if ((k & 63) == 63) progress(); }
     unsigned nest = 0;                   // with probability nest/16 a chunk runs a small nested parallel_for: the thread waits inside the body and may
                                          // pick up the sibling (right) task of the very call it is in the middle of
     void spin() {
         if (head && !head_done.load(RLX) && !head_done.exchange(true, RLX)) spin_iters(head);
         uint32_t x = (work || nest) ? trng().u32() : 0;
         if (work && (x & 7) < work_p) spin_iters((x >> 8) % work);
-        if (nest && ((x >> 4) & 15) < nest) tbb::parallel_for(0, 3, [](int) { spin_iters(150); }, tbb::simple_partitioner());
+        if (nest && ((x >> 4) & 15) < nest) {
+            // static_partitioner mails the nested tasks to other slots: idle workers serve their mailbox before they steal, so this
+            // thread ends up waiting for them with the outer call's own spawned siblings still in its deque - and runs those, unstolen,
+            // in the middle of this body (with plain spawning thieves always take the older outer tasks first)
+            if (x & 0x1000) tbb::parallel_for(0, 4, [](int) { spin_iters(1200); }, tbb::static_partitioner());
+            else tbb::parallel_for(0, 3, [](int) { spin_iters(150); }, tbb::simple_partitioner());
+        }
     }
     void fail(const char* what_key, const std::string& what) {
         if (fails.fetch_add(1) == 0) { std::lock_guard<std::mutex> l(fm); fkey = std::string("c06.") + cls + "." + what_key; fwhat = what; }
@@ -259,7 +265,7 @@ static inline int fdiv8(int k) { return k >= 0 ? k / 8 : -((-(long long)k + 7) /
 struct Cmp {
     Obs* o; int kind;     // 0 less, 1 greater, 2 coarse (key/8: strict weak, many equivalent keys), 3 total (key, index)
     bool operator()(const KV& a, const KV& b) const {
-        if (o) o->touch();
+        if (o) { o->touch(); static thread_local unsigned calls = 0; if ((++calls & 0xFFFF) == 0) progress(); }   // a long sort is not a stall
         switch (kind) { case 0: return a.k < b.k; case 1: return a.k > b.k; case 2: return fdiv8(a.k) < fdiv8(b.k); default: return a < b; }
     }
 };
